@@ -31,7 +31,7 @@ def run(ctx, res):
     for fn in ("mtbl_sorter_add", "mtbl_sorter_write"):
         f = prog.need(fn, U)
         res.saw(f)
-        ev = APE.run(prog, cg, f, bound=1)
+        ev = APE.run(prog, cg, f, bound=APE.BOUND)
         seen = False
         for p in ev.paths:
             it = None
@@ -54,7 +54,7 @@ def run(ctx, res):
             res.bad("C06.R1", site(f, "gate"), "%s has no refusing path" % fn, f.loc(f.body))
     si = prog.need("mtbl_sorter_iter", U)
     res.saw(si)
-    ev = APE.run(prog, cg, si, bound=1)
+    ev = APE.run(prog, cg, si, bound=APE.BOUND)
     for p in ev.paths:
         if p.end != "exit":
             continue
@@ -67,7 +67,7 @@ def run(ctx, res):
     # ---- R2 ---------------------------------------------------------------------------
     res.floor("C06.R2", 2)
     add = prog.need("mtbl_sorter_add", U)
-    ev = APE.run(prog, cg, add, bound=1)
+    ev = APE.run(prog, cg, add, bound=APE.BOUND)
     for p in ev.paths:
         if p.end != "exit" or not p.calls("entry_vec_append"):
             continue
@@ -99,7 +99,7 @@ def run(ctx, res):
             res.check(bool(form) and v == frozenset((LT,)), "C06.R2", site(add, "no-spill"), "no spill only while strictly below max_memory",
                       "entries keep accumulating although the limit may be reached (%s %s max_memory)" % (a, sorted(v)), add.loc(add.body), p.describe(add))
     geb = prog.need("_mtbl_sorter_get_entry_batch", U)
-    ev = APE.run(prog, cg, geb, bound=1)
+    ev = APE.run(prog, cg, geb, bound=APE.BOUND)
     for p in ev.paths:
         if p.end != "exit":
             continue
@@ -122,7 +122,7 @@ def run(ctx, res):
                 continue
         res.check(g.name == wc.name and c["callee"] == "mkstemp", "C06.R3", site(g, "creates:%s" % c["callee"]),
                   "the chunk writer's mkstemp is the sorter's only file-creating call", "%s creates files via %s" % (g.name, c["callee"]), g.loc(c))
-    ev = APE.run(prog, cg, wc, bound=1, opaque_calls=("mkstemp",))
+    ev = APE.run(prog, cg, wc, bound=APE.BOUND, opaque_calls=("mkstemp",))
     checked = False
     for p in ev.paths:
         evs = [e for e in p.events if e.kind == "call"]
@@ -203,7 +203,7 @@ def run(ctx, res):
 
     # ---- R5 --------------------------------------------------------------------------------
     res.floor("C06.R5", 2)
-    ev = APE.run(prog, cg, si, bound=1)
+    ev = APE.run(prog, cg, si, bound=APE.BOUND)
     for p in ev.paths:
         if p.end != "exit" or p.ret() == ("c", 0):
             continue
